@@ -78,6 +78,7 @@ def handleVM : List Sexp → String
           | .unsupported w => "unsupported " ++ atomize w
           | .excluded w => "excluded " ++ atomize w
           | .fuel => "fuel"
+        | .limit _ => "rerr #" ++ hexOfString allocLimitText ++ " " ++ tail ++ " " ++ showTrace log
         | .outOfFuel _ => "fuel"
       | _ => "bad-op setup"
     | _, _, _, _, _ => "bad-op args"
